@@ -70,7 +70,12 @@ void engineActor(const std::vector<std::string> &, const std::vector<std::string
             } else if (kind == "hostname" && w.size() == 3) {
                 // the constructor already probes: connect after construction as an application would
                 auto *h = new Hostname(server.get());
-                QObject::connect(h, &Hostname::hostnameChanged, [=](const QByteArray &n) { sig(name, "hostnameChanged", io::tokOfBstr(n)); });
+                // what a slot observes while the notification is being delivered: the object already reports itself
+                // registered under the announced name (OBS lines are compared with the model's, not fed to the acceptors)
+                QObject::connect(h, &Hostname::hostnameChanged, [=](const QByteArray &n) {
+                    sig(name, "hostnameChanged", io::tokOfBstr(n));
+                    outLine("OBS " + name + " " + (h->isRegistered() ? "1" : "0") + " " + io::tokOfBstr(h->hostname()));
+                });
                 o.ptr = h;
             } else if (kind == "provider" && w.size() == 4) {
                 o.ptr = new Provider(server.get(), static_cast<Hostname *>(need(w[3], "hostname")));
